@@ -490,6 +490,9 @@ def check_case(case, props):
                         continue
                     outs = r_s['out']
                     stats['l3_checks'] += 1
+                    if 'inconclusive' in (out['sol'], outs['sol']):
+                        inconc('engine_limit:%s' % (out.get('status') or outs.get('status')))
+                        continue
                     if out['sol'] != outs['sol']:
                         if 'opt' in (out['sol'], outs['sol']) and _soft(out, outs):
                             inconc('soft_failure:' + eng)
